@@ -4,11 +4,13 @@ import (
 	"fmt"
 	"runtime"
 	"sync"
+	"sync/atomic"
 
 	"verifh/engine"
 
 	"github.com/pinealctx/neptune/cache"
 	"github.com/pinealctx/neptune/cache/tiny"
+	"github.com/pinealctx/neptune/remap"
 )
 
 // concFreshCase: "a sharded container answers every request exactly as the unsharded one
@@ -218,3 +220,66 @@ type atomicInt struct {
 
 func (a *atomicInt) add(d int64) { a.mu.Lock(); a.v += d; a.mu.Unlock() }
 func (a *atomicInt) load() int64 { a.mu.Lock(); defer a.mu.Unlock(); return a.v }
+
+// concRemapCase: "the computed shard index is deterministic" also for the very first lookups
+// on a fresh ReMap made by several goroutines at the same moment. A large shard count makes
+// whatever a ReMap sets up on first use take long enough to be observed half done. The expected
+// indices come from the independent partition model (and a second ReMap used by one goroutine).
+func concRemapCase(k *engine.Case) {
+	r := k.R
+	n := []uint64{65537, 262147, 1000003, 100003, 1024}[r.Intn(5)]
+	workers := 4 + r.Intn(9)
+	old := runtime.GOMAXPROCS(16)
+	defer runtime.GOMAXPROCS(old)
+	const per = 24
+	hashes := make([][]uint64, workers)
+	for w := range hashes {
+		for i := 0; i < per; i++ {
+			hashes[w] = append(hashes[w], genHash(r, n))
+		}
+	}
+	k.Logf("fresh ReMap with %d shards: %d goroutines make its first %d SearchIndex lookups each at the same moment", n, workers, per)
+	k.Nontrivial()
+	calm := remap.NewReMap(remap.WithPrime(n))
+	fresh := remap.NewReMap(remap.WithPrime(n))
+	got := make([][]int, workers)
+	start := make(chan struct{})
+	var wg sync.WaitGroup
+	var panicked atomic.Value
+	for w := 0; w < workers; w++ {
+		w := w
+		got[w] = make([]int, per)
+		wg.Add(1)
+		go func() {
+			defer wg.Done()
+			defer func() {
+				if p := recover(); p != nil {
+					panicked.Store(fmt.Sprint(p))
+				}
+			}()
+			<-start
+			for i, h := range hashes[w] {
+				got[w][i] = fresh.SearchIndex(h)
+			}
+		}()
+	}
+	close(start)
+	wg.Wait()
+	k.Evals(int64(workers * per))
+	if p, ok := panicked.Load().(string); ok {
+		k.Fail("panic", "ReMap(%d shards): concurrent first SearchIndex lookups panicked: %s", n, p)
+		return
+	}
+	for w := range hashes {
+		for i, h := range hashes[w] {
+			want := modelShard(h, n)
+			alone := calm.SearchIndex(h)
+			if got[w][i] != want || alone != want {
+				k.Fail("index-unstable", "ReMap(%d shards): SearchIndex(%#x) returned %d when it was among the first lookups of a fresh ReMap made by %d goroutines at once; a ReMap used by one goroutine returns %d, the partition model %d", n, h, got[w][i], workers, alone, want)
+				return
+			}
+		}
+	}
+	k.Count("conc_remap_cases", 1)
+	k.Count("conc_remap_lookups", int64(workers*per))
+}
